@@ -3,6 +3,7 @@
 use crate::kit::report::Report;
 use crate::kit::runner::{Ctx, Sub};
 
+pub mod c01;
 pub mod c02;
 pub mod c03;
 pub mod c04;
@@ -25,6 +26,7 @@ pub struct PropDef {
 
 pub fn get(id: &str) -> Option<PropDef> {
     match id {
+        "C01" => Some(c01::def()),
         "C02" => Some(c02::def()),
         "C03" => Some(c03::def()),
         "C04" => Some(c04::def()),
